@@ -960,6 +960,7 @@ class Verifier(Calls):
         self.obligations = []
         self.unmodelled = []
         self.dead_after_call = []
+        smt.reset_adaptive()
         self.npaths = 0
         self.exits = 0
         res = {'key': key, 'status': 'ok', 'reason': None, 'binding': 'bound'}
